@@ -618,6 +618,8 @@ Proof. destruct (orphan_cases x) as [-> | ->]; [constructor | apply steps_one, p
 Lemma orphan_pq x : pq (orphan x) = pq x.
 Proof. destruct (orphan_cases x) as [-> | ->]; reflexivity. Qed.
 
+Ltac orph := repeat match goal with |- context [orphan ?x] => destruct (orphan_cases x) as [-> | ->] end.
+
 Lemma api_connect_sim s : steps s (api_connect s) /\ aframe s (api_connect s).
 Proof.
   unfold api_connect.
@@ -2086,6 +2088,7 @@ Proof.
   - apply Inv4_inert; simpl; auto.
   - exfalso. apply Hnr. left; reflexivity.
   - apply Inv4_inert; simpl; auto. apply (Inv4_state s); auto.
+  - apply Inv4_inert; simpl; auto.
 Qed.
 
 Lemma Inv4_steps s s' : steps s s' -> ~ In EReopen (tr s') -> Inv4r s /\ Inv4 s -> Inv4r s' /\ Inv4 s'.
@@ -2338,10 +2341,10 @@ Proof.
   destruct (connecting s); [destruct (is_tcp s); [apply KC_same; reflexivity | apply KC_refl]|].
   destruct (is_tcp (set_connres (tl (connres s)) s)).
   - destruct (writable (set_connres (tl (connres s)) s));
-      destruct (conn_pending_ok _); try (apply KC_same; reflexivity);
-      destruct (match _ with Some 111%positive => true | _ => false end); apply KC_same; reflexivity.
-  - destruct (conn_pending_ok _); [|apply KC_same; reflexivity].
-    destruct (negb _ && negb _); apply KC_same; reflexivity.
+      destruct (conn_pending_ok _); try (orph; apply KC_same; reflexivity);
+      destruct (match _ with Some 111%positive => true | _ => false end); orph; apply KC_same; reflexivity.
+  - destruct (conn_pending_ok _); [|orph; apply KC_same; reflexivity].
+    destruct (negb _ && negb _); orph; apply KC_same; reflexivity.
 Qed.
 
 Lemma api_kc s o : KC s (api s o).
@@ -2374,14 +2377,14 @@ Proof.
   change (is_tcp sA) with (is_tcp s). change (writable sA) with (writable s). change (readable sA) with (readable s).
   destruct (is_tcp s).
   - destruct (conn_pending_ok cres) eqn:Hok.
-    + destruct (writable s); apply G; try reflexivity; try (left; split; reflexivity); left; reflexivity.
+    + destruct (writable s); orph; apply G; try reflexivity; try (left; split; reflexivity); left; reflexivity.
     + destruct (match cres with Some 111%positive => true | _ => false end).
-      * destruct (writable s); apply G; try reflexivity; try (right; apply Hd; reflexivity); left; reflexivity.
+      * destruct (writable s); orph; apply G; try reflexivity; try (right; apply Hd; reflexivity); left; reflexivity.
       * destruct (writable s); apply G0; try reflexivity; exact Hcg.
   - destruct (conn_pending_ok cres) eqn:Hok.
-    + destruct (negb (readable s) && negb (writable s)); apply G; try reflexivity;
+    + destruct (negb (readable s) && negb (writable s)); orph; apply G; try reflexivity;
         try (left; split; reflexivity); left; reflexivity.
-    + apply G; try reflexivity; [right; apply Hd; reflexivity | right; reflexivity].
+    + orph; (apply G; try reflexivity; [right; apply Hd; reflexivity | right; reflexivity]).
 Qed.
 
 Lemma api_prog s o : Prog s -> Prog (api s o).
@@ -2432,13 +2435,13 @@ Proof.
   change (is_tcp sA) with (is_tcp s). change (writable sA) with (writable s). change (readable sA) with (readable s).
   destruct (is_tcp s).
   - destruct (conn_pending_ok cres) eqn:Hok.
-    + destruct (writable s); intros _; (split; [left; split; reflexivity | left; reflexivity]).
+    + destruct (writable s); orph; intros _; (split; [left; split; reflexivity | left; reflexivity]).
     + destruct (match cres with Some 111%positive => true | _ => false end).
-      * destruct (writable s); intros _; (split; [right; apply Hd; reflexivity | left; reflexivity]).
+      * destruct (writable s); orph; intros _; (split; [right; apply Hd; reflexivity | left; reflexivity]).
       * destruct (writable s); cbn; intros X; congruence.
   - destruct (conn_pending_ok cres) eqn:Hok.
-    + destruct (negb (readable s) && negb (writable s)); intros _; (split; [left; split; reflexivity | left; reflexivity]).
-    + intros _. split; [right; apply Hd; reflexivity | right; reflexivity].
+    + destruct (negb (readable s) && negb (writable s)); orph; intros _; (split; [left; split; reflexivity | left; reflexivity]).
+    + orph; intros _; (split; [right; apply Hd; reflexivity | right; reflexivity]).
 Qed.
 
 Lemma api_wp s o : FC s -> WP s -> WP (api s o).
@@ -3296,6 +3299,7 @@ Proof.
   - apply I5_boring; simpl; auto.
   - apply I5_boring; simpl; auto.
   - apply I5_boring; simpl; auto.
+  - apply I5_boring; simpl; auto.
 Qed.
 
 Lemma Inv5_init blk o sa pw c ip : Inv5 (init blk o sa pw c ip).
@@ -3850,4 +3854,68 @@ Proof.
          [EQ 0; EConnCb (-111); ESysShut (-107); EShutCb (-107); EQ 0; EReopen; EConnect (-22);
           EQ 0; EWrite 0 4; ERet 0 0; EQ 4; ECb 0 (-32) 0; EQ 0], O.
   split; [vm_compute; reflexivity | simpl; tauto].
+Qed.
+
+(* ------------------------------------------------------------------ *)
+(* every connect request accepted with 0 completes exactly once        *)
+(* ------------------------------------------------------------------ *)
+Fixpoint nconn0 (t : list event) : nat :=      (* uv_tcp_connect / uv_pipe_connect calls accepted (0) *)
+  match t with
+  | [] => O
+  | EConnect c :: t' => ((if Z.eqb c 0 then 1 else 0) + nconn0 t')%nat
+  | _ :: t' => nconn0 t'
+  end.
+
+Fixpoint nconncb (t : list event) : nat :=     (* connect callbacks *)
+  match t with
+  | [] => O
+  | EConnCb _ :: t' => S (nconncb t')
+  | _ :: t' => nconncb t'
+  end.
+
+(* accepted (+ the one the script starts with) = called back + (1 if one is pending) *)
+Definition Inv8 (k : nat) (s : st) : Prop :=
+  (nconn0 (tr s) + k = nconncb (tr s) + (if connecting s then 1 else 0))%nat.
+
+Lemma Inv8_prim k s s' : prim s s' -> Inv8 k s -> Inv8 k s'.
+Proof.
+  intros P I. unfold Inv8 in *.
+  destruct P; unfold call0, finish_head, flush in *; cbn in *;
+    try (destruct (r_freed r); cbn; lia); try lia.
+  - destruct H as (_ & _ & _ & _ & _ & _ & _ & _ & _ & _ & E2). rewrite E2, H0. exact I.
+  - rewrite H in I. lia.
+  - destruct (Z.eqb_spec c 0); [contradiction | lia].
+  - rewrite H in I. lia.
+Qed.
+
+Lemma Inv8_steps k s s' : steps s s' -> Inv8 k s -> Inv8 k s'.
+Proof. induction 1; eauto using Inv8_prim. Qed.
+
+Definition started (c : conn_cfg) : nat := match c with Some _ => 1%nat | None => O end.
+
+Lemma Inv8_init blk o sa pw c ip : Inv8 (started c) (init blk o sa pw c ip).
+Proof. unfold Inv8. init_cases c; reflexivity. Qed.
+
+Lemma nconn0_app a b : nconn0 (a ++ b) = (nconn0 a + nconn0 b)%nat.
+Proof. induction a as [|e a IH]; simpl; auto. destruct e; auto. rewrite IH. lia. Qed.
+Lemma nconn0_rev t : nconn0 (rev t) = nconn0 t.
+Proof. induction t as [|e t IH]; simpl; auto. rewrite nconn0_app, IH. destruct e; simpl; lia. Qed.
+Lemma nconncb_app a b : nconncb (a ++ b) = (nconncb a + nconncb b)%nat.
+Proof. induction a as [|e a IH]; simpl; auto. destruct e; auto. rewrite IH. lia. Qed.
+Lemma nconncb_rev t : nconncb (rev t) = nconncb t.
+Proof. induction t as [|e t IH]; simpl; auto. rewrite nconncb_app, IH. destruct e; simpl; lia. Qed.
+
+(* C05_connect_exactly_once: at all times, for every script - connects started at top level, from a
+   write callback, from a connect callback, with or without a shutdown pending -
+   accepted connects = connect callbacks + (1 if one is pending); with [progress] the pending one
+   always has a wake-up, and uv_close cancels it (its callback then runs from uv__stream_destroy) *)
+Theorem connect_exactly_once beh blk o sa pw cfg ip ops :
+  let s := exec beh (init blk o sa pw cfg ip) ops in
+  (nconn0 (trace s) + started cfg = nconncb (trace s) + (if connecting s then 1 else 0))%nat /\
+  (connecting s = true -> closing s = false -> armed s = true \/ fed s = true).
+Proof.
+  intros s. split.
+  - destruct (exec_steps beh blk o sa pw cfg ip ops) as [S _]. fold s in S.
+    unfold trace. rewrite nconn0_rev, nconncb_rev. apply (Inv8_steps _ _ _ S). apply Inv8_init.
+  - intros Hc. apply (progress beh blk o sa pw cfg ip ops). right. exact Hc.
 Qed.
